@@ -1,5 +1,7 @@
 import Pycoin.Proofs.ScriptNum
 import Pycoin.Proofs.ScriptPush
+import Pycoin.Proofs.ScriptPushUnique
+import Pycoin.Proofs.ScriptText
 /-!
 C12 — Script integers, data pushes and script text encode canonically and losslessly.
 Part 1: script numbers (`IntStreamer`).  Core Lean only.
@@ -392,6 +394,14 @@ theorem C12_push_shortest (d rest : Bytes) (h : d.length < 2 ^ 32) :
       Spec.pushValue opc payload = some d ∧ (opc ≤ 0x4e → Spec.checkMinimalPush opc payload = true) :=
   ⟨compilePushData_eq d h, getScriptOp_minimalPush d rest h⟩
 
+/-- **C12.push_unique** — "exactly as the rule demands": any single instruction that Core reads as a push of `d`
+(payload of an opcode ≤ `OP_PUSHDATA4`, or the number pushed by `OP_1NEGATE`/`OP_1..OP_16`) and that
+`CheckMinimalPush` accepts is, byte for byte, `Spec.minimalPush d` — the bytes `compile_push_data d` emits. -/
+theorem C12_push_unique (bs d rest : Bytes) (opc : Nat) (payload : Bytes)
+    (hg : Spec.getScriptOp bs = some (opc, payload, rest)) (hv : Spec.pushValue opc payload = some d)
+    (hm : opc ≤ 0x4e → Spec.checkMinimalPush opc payload = true) :
+    bs = Spec.minimalPush d ++ rest := minimalPush_unique bs d rest opc payload hg hv hm
+
 /-- the other side of the 2^32 bound: `struct.pack("<L", …)` raises `struct.error` -/
 theorem C12_push_overflow (d : Bytes) (h : 2 ^ 32 ≤ d.length) : compilePushData d = .error .structError :=
   compilePushData_overflow d h
@@ -491,5 +501,66 @@ theorem C12_truncated_shapes (tail : Bytes) :
 #guard getOpcode [0x4c] 0 false matches .ok ⟨0x4c, none, 2, false⟩
 #guard getOpcode [0x4c, 0x00] 0 true matches .error .scriptError
 #guard getOpcode [0x05, 1, 2] 0 true matches .ok ⟨0x05, none, 2, false⟩
+
+end Pycoin.Script
+
+/-!
+Part 3: script text (`ScriptTools.compile` / `disassemble`), token level.
+A script "made of known opcodes and minimal pushes" is `assemble is` for a list of instructions `is`, each either a
+known non-data opcode (`Instr.plain op`: no handler in the decoder table and a name in `int_to_opcode` — for the
+shipped tables 0x50, 0x61..0xb9 and 0xff) or the minimal push of some data shorter than 2^32 bytes (`Instr.push d`).
+`opcodeList'` is `ScriptTools.opcode_list` (the tokens `disassemble` joins with spaces) and `compileTokens` is the loop of
+`ScriptTools.compile` over `s.split()`. The name tables come from `Gen/Opcodes.lean`; that every printed name compiles
+back to its byte (aliases at 0xb1/0xb2 included) is `names_roundtrip`, a kernel evaluation over all 256 bytes.
+The string layer proper (joining with `" "` and `str.split()`, `str.upper()` beyond ASCII, `int()`) is tied by
+correspondence only.
+-/
+namespace Pycoin.Script
+
+/-- **C12.compile_disassemble** — compiling the tokens of the disassembly of any script made of known opcodes and
+minimal pushes reproduces the script byte for byte -/
+theorem C12_compile_disassemble (is : List Instr) (hwf : ∀ i ∈ is, i.wf) :
+    compileTokens (opcodeList' (assemble is)) = .ok (assemble is) := by
+  obtain ⟨h1, h2⟩ := getOpcodes_assemble is hwf []
+  simp only [List.nil_append, List.length_nil] at h1 h2
+  unfold opcodeList'
+  simp only [h2, h1]
+  exact compileTokens_assemble is hwf
+
+/-- the decoder recovers exactly the instruction list of an assembled script (one item per instruction, no error):
+what `disassemble` prints is determined by the instructions alone -/
+theorem C12_disassemble_tokens (is : List Instr) (hwf : ∀ i ∈ is, i.wf) :
+    opcodeList' (assemble is) = is.map Instr.token := by
+  obtain ⟨h1, h2⟩ := getOpcodes_assemble is hwf []
+  simp only [List.nil_append, List.length_nil] at h1 h2
+  unfold opcodeList'
+  simp only [h2, h1]
+
+/-- every name disassembly can print compiles back to the byte it was printed for (0xb1 → `OP_CHECKLOCKTIMEVERIFY`,
+0xb2 → `OP_CHECKSEQUENCEVERIFY`, and the alias spellings `OP_NOP2`/`OP_NOP3` compile to the same bytes) -/
+theorem C12_names_roundtrip (op : UInt8) (name : Text) (h : dictGet op intToOpcodeC = some name) :
+    compileToken name = .ok [op] := nameOk_spec op name h
+
+/-- **C12.compile_disassemble_text** — the same at the level of the text: `compile(disassemble(s)) = s`, through
+joining the tokens with single spaces and `str.split()` (no printed token is empty or contains white space).
+Still modelled, not proved, in the string layer: Python's `str.upper()`/`int()`/`unhexlify` as rendered in
+`Model/ScriptTools.lean` (ASCII), tied to the code by correspondence. -/
+theorem C12_compile_disassemble_text (is : List Instr) (hwf : ∀ i ∈ is, i.wf) :
+    compile (disassemble (assemble is)) = .ok (assemble is) := by
+  unfold compile disassemble
+  rw [splitWs_joinSpace]
+  · exact C12_compile_disassemble is hwf
+  · intro t ht
+    rw [C12_disassemble_tokens is hwf] at ht
+    obtain ⟨i, _, rfl⟩ := List.mem_map.mp ht
+    cases i <;> (unfold Instr.token; exact dfod_nospace _ _)
+
+-- non-vacuity: P2PKH-like script with the aliases, a 1-byte small integer, an empty push and a 76-byte push
+#guard (compileTokens (opcodeList' (assemble [.plain 0x76, .plain 0xa9, .push (List.replicate 20 0xab), .plain 0x88,
+    .plain 0xb1, .plain 0xb2, .push [5], .push [], .push [0x81], .push (List.replicate 76 1), .plain 0xff])))
+  matches .ok (0x76 :: 0xa9 :: 0x14 :: _)
+#guard disassemble [0xb1, 0xb2, 0x00, 0x4f, 0x51] = "OP_CHECKLOCKTIMEVERIFY OP_CHECKSEQUENCEVERIFY OP_0 OP_1NEGATE OP_1".toList
+#guard compile "OP_NOP2 OP_NOP3 NOP2 [ab] 'a' 5 -1 0x4c".toList matches .ok [0xb1, 0xb2, 0xb1, 0x01, 0xab, 0x01, 0x61, 0x55, 0x4f, 0x4c]
+#guard compile "op_dup".toList matches .error .keyError
 
 end Pycoin.Script
